@@ -186,6 +186,24 @@ func (s *scen) expect(ok bool, what string) {
 	}
 }
 
+// show prints the node views (RAFTABS_SCEN_DEBUG=1), for writing scenarios
+func (s *scen) show(label string) {
+	if os.Getenv("RAFTABS_SCEN_DEBUG") == "" {
+		return
+	}
+	fmt.Fprintf(os.Stderr, "-- %s\n", label)
+	for _, id := range s.c.IDs() {
+		v := s.c.View(id)
+		if v.Born {
+			fmt.Fprintf(os.Stderr, "   %d alive=%v role=%d term=%d lead=%d commit=%d last=%d voters=%v learners=%v appl=%d\n", id, v.Alive, v.Role, v.Term, v.Lead, v.Commit, v.Last, v.Voters, v.Learners, v.AppApplied)
+		}
+	}
+	for _, id := range s.pending(anyMsg) {
+		m, _ := s.c.Msg(id)
+		fmt.Fprintf(os.Stderr, "   net %d: %v %d->%d term %d idx %d commit %d ents %d rej %v\n", id, m.Type, m.From, m.To, m.Term, m.Index, m.Commit, len(m.Entries), m.Reject)
+	}
+}
+
 func (s *scen) leader(n uint64) bool { v := s.c.View(n); return v.Alive && v.Role == 2 }
 
 type scenario struct {
@@ -478,6 +496,160 @@ var scenarios = []scenario{
 		s.deliver(typ(pb.MsgVote, 4, 3))
 		s.deliver(typ(pb.MsgVoteResp, 5, 4))
 		s.deliver(typ(pb.MsgVoteResp, 3, 4))
+	}},
+	{"C01-c3-uptodate-vs-commit-index", baseOpt(5, 3, false, false), func(s *scen) {
+		// {1,2,3} leader 3; add 4 (1 stores it, then cut off), add 5 (2 stores it but never learns commit);
+		// 1 (config {1,2,3}, log short by one) and 4 (config {1..5}) run for the same term
+		s.settle(1, 2, 3)
+		s.campaign(3)
+		s.settle(1, 2, 3)
+		s.expect(s.leader(3), "3 should lead")
+		s.conf(3, "addnode", 4)
+		s.must(s.deliver(and(isType(pb.MsgApp), to(1))), "append 3->1")
+		cut1 := func() { s.drop(touching(1)) }
+		cut1()
+		for i := 0; i < 6; i++ {
+			s.settle(2, 3, 4)
+			cut1()
+			s.tick(3, 1)
+			cut1()
+		}
+		s.settle(2, 3, 4)
+		cut1()
+		s.expect(len(s.c.View(3).Voters) == 4 && len(s.c.View(4).Voters) == 4, "3 and 4 should have applied add 4")
+		lastBefore := s.c.View(3).Last
+		s.conf(3, "addnode", 5)
+		cut1()
+		newIdx := lastBefore + 1
+		// 2 stores the new entry and acknowledges it, but nothing that carries commit >= newIdx reaches it
+		noCommitTo2 := func(m pb.Message) bool {
+			return m.To == 2 && (m.Type == pb.MsgApp || m.Type == pb.MsgHeartbeat) && m.Commit >= newIdx
+		}
+		for i := 0; i < 8; i++ {
+			s.drop(noCommitTo2)
+			cut1()
+			if s.deliver(and(among(2, 3, 4, 5), not(noCommitTo2))) == 0 {
+				s.tick(3, 1)
+				s.drop(noCommitTo2)
+				cut1()
+				if s.deliver(and(among(2, 3, 4, 5), not(noCommitTo2))) == 0 && i > 3 {
+					break
+				}
+			}
+		}
+		s.drop(noCommitTo2)
+		cut1()
+		s.expect(s.c.View(2).Commit == newIdx-1 && s.c.View(2).Last == newIdx, "2 should hold the entry without knowing it is committed")
+		s.expect(len(s.c.View(1).Voters) == 3 && len(s.c.View(4).Voters) == 5 && len(s.c.View(3).Voters) == 5, "configurations {1,2,3} at 1 and {1..5} at 3,4")
+		// the network heals; 1 and 4 run for the next term
+		s.campaign(1)
+		s.must(s.deliver(typ(pb.MsgVote, 1, 2)), "vote 1->2")
+		s.deliver(typ(pb.MsgVoteResp, 2, 1))
+		s.campaign(4)
+		s.deliver(typ(pb.MsgVote, 4, 5))
+		s.deliver(typ(pb.MsgVote, 4, 3))
+		s.deliver(typ(pb.MsgVoteResp, 5, 4))
+		s.deliver(typ(pb.MsgVoteResp, 3, 4))
+		s.settle(1, 2, 3, 4, 5)
+	}},
+	{"C02-b2-figure8-old-term-commit", func() raftdrv.Options {
+		o := baseOpt(3, 3, true, true)
+		o.MaxSizePerMsg = 0 // one entry per MsgApp
+		return o
+	}(), func(s *scen) {
+		isVoteMsg := func(m pb.Message) bool {
+			return m.Type == pb.MsgVote || m.Type == pb.MsgVoteResp || m.Type == pb.MsgPreVote || m.Type == pb.MsgPreVoteResp
+		}
+		// elect c with the help of v: only election messages between the two are delivered
+		elect := func(c, v uint64, other uint64) {
+			for try := 0; try < 4 && !s.leader(c); try++ {
+				s.campaign(c)
+				for i := 0; i < 6; i++ {
+					s.drop(touching(other))
+					if s.deliver(and(among(c, v), isVoteMsg)) == 0 {
+						break
+					}
+				}
+			}
+		}
+		s.settle(1, 2, 3)
+		s.campaign(1)
+		s.settle(1, 2, 3)
+		s.expect(s.leader(1), "A=1 should lead term 2")
+		s.propose(1, 0)
+		for i := 0; i < 3; i++ {
+			s.settle(1, 2, 3)
+			s.tick(1, 1)
+		}
+		s.settle(1, 2, 3)
+		// A is cut off and appends a1 locally
+		s.propose(1, 0)
+		s.drop(touching(1))
+		// the leases on A run out; B is elected by C; its entries never leave B
+		s.tick(2, 10)
+		s.tick(3, 10)
+		s.drop(anyMsg)
+		elect(2, 3, 1)
+		s.expect(s.leader(2), "B=2 should lead term 3")
+		s.drop(from(2))
+		s.propose(2, 0)
+		s.drop(anyMsg)
+		// A steps down for lack of a quorum, C's lease on B runs out, A is elected by C for term 4
+		s.tick(1, 21)
+		s.drop(anyMsg)
+		s.tick(3, 10)
+		s.drop(anyMsg)
+		elect(1, 3, 2)
+		s.expect(s.leader(1) && s.c.View(1).Term == 4, "A should lead term 4")
+		s.show("A leads term 4")
+		aLast := s.c.View(1).Last // A's own empty entry of term 4
+		// A's probe replicates the old entry (term 2) to C; the append carrying A's term-4 entry is lost
+		lostApp := func(m pb.Message) bool {
+			if m.Type != pb.MsgApp || m.From != 1 || m.To != 3 || m.Index > s.c.View(3).Last {
+				return false
+			}
+			for _, e := range m.Entries {
+				if e.Index >= aLast {
+					return true
+				}
+			}
+			return false
+		}
+		for i := 0; i < 6; i++ {
+			s.drop(touching(2))
+			s.drop(lostApp)
+			if s.deliver(and(among(1, 3), not(lostApp))) == 0 {
+				break
+			}
+		}
+		s.drop(lostApp)
+		s.show("after probe")
+		s.expect(s.c.View(3).Last == aLast-1, "C should hold exactly up to the old entry")
+		s.drop(anyMsg)
+		// B reaches C: its heartbeat is answered from term 4, it steps down; C's lease runs out; B wins term 5
+		s.tick(3, 10)
+		s.drop(anyMsg)
+		s.tick(2, 1)
+		s.drop(touching(1))
+		s.settle(2, 3)
+		s.drop(touching(1))
+		elect(2, 3, 1)
+		s.expect(s.leader(2) && s.c.View(2).Term == 5, "B should lead term 5")
+		for i := 0; i < 4; i++ {
+			s.drop(touching(1))
+			s.settle(2, 3)
+			s.tick(2, 1)
+		}
+		s.drop(touching(1))
+		s.show("B replicated")
+		// the partition heals
+		for i := 0; i < 6; i++ {
+			for _, id := range []uint64{1, 2, 3} {
+				s.tick(id, 1)
+			}
+			s.settle(1, 2, 3)
+		}
+		s.show("end")
 	}},
 }
 
